@@ -2,7 +2,7 @@
  * (A separate program: MiniMessage.c and MicroMessage.c define the same global symbols.)
  *   U <hex>                      MMUnflattenMessage the bytes, MMFlattenMessage the result       -> K <hex> | E <why>
  *   B M <what> <nfields> ...     build the content natively with MMPut*Field(), flatten          -> K <hex> | E <why>
- *   G <seed> <hex> <hex> ...     MGAddOutgoingMessage each Message, MGDoOutput in random slices  -> K <hex of the stream>
+ *   G <seed> M ... M ...         build each content natively, MGAddOutgoingMessage, MGDoOutput in random slices -> K <hex of the stream>
  *   R <seed> <hex of a stream>   MGDoInput in random slices, flatten every Message received      -> K <hex> <hex> ...
  *   Q                            quit
  * content text:  M <what:8 hex digits> <nfields> { <name hex | -> <type code:8 hex digits> <nitems> { <item hex | -> | M ... } }
@@ -10,8 +10,13 @@
 #include <stdio.h>
 #include <stdlib.h>
 #include <string.h>
+#include <unistd.h>
 #include "lang/c/minimessage/MiniMessage.h"
 #include "lang/c/minimessage/MiniMessageGateway.h"
+
+/* replies go to the original stdout; fd 1 is pointed at stderr so that the codec's own printf() diagnostics cannot corrupt the protocol */
+static FILE * g_out = NULL;
+#define printf(...) fprintf(g_out, __VA_ARGS__)
 
 static int hexval(int c) {return (c >= '0' && c <= '9') ? c-'0' : (c >= 'a' && c <= 'f') ? c-'a'+10 : (c >= 'A' && c <= 'F') ? c-'A'+10 : -1;}
 /* decodes a hex token into a malloc'd buffer (always one extra NUL byte at the end); "-" is the empty buffer */
@@ -24,7 +29,7 @@ static uint8 * unhex(const char * h, uint32 * n)
    b[len/2] = 0; *n = (uint32)(len/2);
    return b;
 }
-static void puthex(const uint8 * b, uint32 n) {uint32 i; if (n == 0) fputc('-', stdout); for (i=0; i<n; i++) printf("%02x", b[i]);}
+static void puthex(const uint8 * b, uint32 n) {uint32 i; if (n == 0) fputc('-', g_out); for (i=0; i<n; i++) printf("%02x", b[i]);}
 static char * tok(char ** p) {char * s = *p; char * e; if (s == NULL) return NULL; while (*s == ' ') s++; if (*s == 0) {*p = NULL; return NULL;} e = s; while ((*e)&&(*e != ' ')) e++; if (*e) {*e = 0; *p = e+1;} else *p = NULL; return s;}
 
 static uint32 u32at(const uint8 * b) {return ((uint32)b[0]) | (((uint32)b[1]) << 8) | (((uint32)b[2]) << 16) | (((uint32)b[3]) << 24);}
@@ -108,6 +113,7 @@ static int32 recvf(uint8 * b, uint32 n, void * arg)
 int main(void)
 {
    char * line = NULL; size_t cap = 0; ssize_t got;
+   g_out = fdopen(dup(1), "w"); (void) dup2(2, 1);
    while ((got = getline(&line, &cap, stdin)) > 0)
    {
       char * p = line; char * cmd;
@@ -131,13 +137,16 @@ int main(void)
       }
       else if (strcmp(cmd, "G") == 0)
       {
-         Stream s; MMessageGateway * gw = MGAllocMessageGateway(); char * t; int bad = 0, idle = 0;
+         Stream s; MMessageGateway * gw = MGAllocMessageGateway(); int bad = 0, idle = 0;
          memset(&s, 0, sizeof(s)); s.rnd = (uint32) strtoul(tok(&p), NULL, 10);
-         while ((t = tok(&p)) != NULL)
+         while ((p != NULL)&&(bad == 0))
          {
-            uint32 n; uint8 * b = unhex(t, &n); MMessage * m = MMAllocMessage(0);
-            if ((MMUnflattenMessage(m, b, n) != CB_NO_ERROR)||(MGAddOutgoingMessage(gw, m) != CB_NO_ERROR)) bad = 1;
-            MMFreeMessage(m); free(b);
+            const char * why = "?"; MMessage * m;
+            while ((p)&&(*p == ' ')) p++;
+            if ((p == NULL)||(*p == 0)) break;
+            m = build(&p, &why);                    /* the Messages are built natively from their contents */
+            if ((m == NULL)||(MGAddOutgoingMessage(gw, m) != CB_NO_ERROR)) bad = 1;
+            if (m) MMFreeMessage(m);
          }
          while ((bad == 0)&&(MGHasBytesToOutput(gw))&&(idle < 1000)) {const int32 r = MGDoOutput(gw, (chunk(&s) & 1) ? (uint32) -1 : 1 + (s.rnd >> 8) % 3000, sendf, &s); if (r < 0) bad = 1; else if (r > 0) idle = 0; else idle++;}
          if ((bad)||(MGHasBytesToOutput(gw))) printf("E the gateway could not write the Messages\n"); else {printf("K "); puthex(s.buf, s.len); printf("\n");}
@@ -161,7 +170,7 @@ int main(void)
          MGFreeMessageGateway(gw); free(s.buf);
       }
       else printf("E unknown command\n");
-      fflush(stdout);
+      fflush(g_out);
    }
    return 0;
 }
